@@ -46,9 +46,12 @@ Inductive case :=
        (gh : list (gh_files * pcomment * bool * Z * list (ecomment * bool)))      (* files, pending, side LEFT, line, IsEqual samples *)
        (gl : list (list gl_diff * pcomment * option gl_position * list (ecomment * bool)))
 (** the real GitLabReporter / GithubReporter driven through Submit against a fake API: per round the number of
-    review comments posted, deleted, and the comments List returns afterwards *)
-| Server (id : N) (is_gitlab : bool) (diffs : list gl_diff) (budget : nat) (pend : list pcomment)
-         (store0 : list ecomment) (rounds : list (nat * nat * list ecomment)).
+    review comments posted, deleted, and EVERYTHING the server holds afterwards (other people's, system and general
+    notes included: List's filter is part of the model) *)
+| ServerGL (id : N) (diffs : list gl_diff) (budget : nat) (pend : list pcomment)
+           (store0 : list gl_note) (rounds : list (nat * nat * list gl_note))
+| ServerGH (id : N) (diffs : list gl_diff) (budget : nat) (pend : list pcomment)
+           (store0 : list ecomment) (rounds : list (nat * nat * list ecomment)).
 
 Definition mcomment_eqb (a b : mcomment) : bool :=
   String.eqb (mc_path a) (mc_path b) && Z.eqb (mc_line a) (mc_line b) && N.eqb (mc_text a) (mc_text b) &&
@@ -115,25 +118,32 @@ Definition check_diff diff parsed queries
 Definition ecomment_eqb (a b : ecomment) : bool :=
   String.eqb (ec_path a) (ec_path b) && Z.eqb (ec_line a) (ec_line b) && String.eqb (ec_text a) (ec_text b).
 
-Fixpoint check_server {E} (pf : platform ecomment pcomment) (is_gl : bool) (store : list ecomment) (pend : list pcomment)
-         (rounds : list (nat * nat * list ecomment)) (dummy : E) : list string :=
+Definition pos_eqb' (x y : gl_position) : bool := pos_eqb (Some x) (Some y).
+Definition opos_eqb (a b : option gl_position) : bool :=
+  match a, b with Some x, Some y => pos_eqb' x y | None, None => true | _, _ => false end.
+Definition gl_note_eqb (a b : gl_note) : bool :=
+  Bool.eqb (gn_system a) (gn_system b) && Bool.eqb (gn_mine a) (gn_mine b) && opos_eqb (gn_pos a) (gn_pos b) &&
+  String.eqb (gn_body a) (gn_body b).
+
+Fixpoint check_server {E} (eqb : E -> E -> bool) (pf : platform E pcomment) (store : list E) (pend : list pcomment)
+         (rounds : list (nat * nat * list E)) : list string :=
   match rounds with
   | [] => []
   | (posts, dels, after) :: rest =>
       let '(store', lg) := step pf store pend in
       (if Nat.eqb (List.length (stored (l_created lg))) posts then [] else ["server-posts"]) ++
       (if Nat.eqb (List.length (l_deleted lg)) dels then [] else ["server-deletes"]) ++
-      (if list_eqb ecomment_eqb store' after then [] else ["server-store"]) ++
-      check_server pf is_gl store' pend rest dummy
+      (if list_eqb eqb store' after then [] else ["server-store"]) ++
+      check_server eqb pf store' pend rest
   end.
 
 Definition check (c : case) : N * list string :=
   match c with
   | Rounds id cfg rounds => (id, flat_map (check_round cfg) rounds)
   | Diff id diff parsed queries gh gl => (id, check_diff diff parsed queries gh gl)
-  | Server id is_gl diffs budget pend store0 rounds =>
-      (id, if is_gl then check_server (gitlab diffs budget) true store0 pend rounds tt
-           else check_server (github (map (fun d => (gd_new_path d, gd_diff d)) diffs) budget) false store0 pend rounds tt)
+  | ServerGL id diffs budget pend store0 rounds => (id, check_server gl_note_eqb (gitlab_srv diffs budget) store0 pend rounds)
+  | ServerGH id diffs budget pend store0 rounds =>
+      (id, check_server ecomment_eqb (github_srv (map (fun d => (gd_new_path d, gd_diff d)) diffs) budget) store0 pend rounds)
   end.
 
 Fixpoint mismatches (cs : list case) : list (N * string) :=
